@@ -84,15 +84,23 @@ Definition cell_set (c : cells) (i : nat) (v : Z * Z) : cells := (i, v) :: c.
 
 (* ============================================================ SpecPanic == *)
 
+(* ghost state of SpecPanic, used only to delimit the findings
+   blocked-deferred-panic-recovered-by-caller-continues (flag A) and
+   replaced-panic-resurrected-when-deferred-call-blocks (flag B) *)
+Record ghost := {
+  gh_infl : list nat;      (* activations currently running a deferred call in panicking mode, innermost first *)
+  gh_blk  : option nat;    (* a block statement ran inside such a deferred call: the activation that was running it *)
+  gh_repl : bool;          (* a panic has been replaced by a panic raised in a deferred call *)
+  gh_a    : bool;          (* ... blocked, and the panic was then recovered on behalf of a different activation *)
+  gh_b    : bool           (* a block statement ran inside a panicking-mode deferred call after a replacement *)
+}.
+Definition gh_init : ghost := {| gh_infl := []; gh_blk := None; gh_repl := false; gh_a := false; gh_b := false |}.
+
 Record sglobal := {
   s_trace : list event;       (* newest first *)
   s_cells : cells;
   s_next  : nat;              (* next activation / cell id *)
-  (* ghost, no influence on the run: used only to delimit the finding
-     blocked-deferred-panic-recovered-by-caller-continues *)
-  s_infl  : list nat;         (* activations currently running a deferred call in panicking mode, innermost first *)
-  s_blk   : option nat;       (* a block statement ran inside such a deferred call: the activation that was running it *)
-  s_flag  : bool              (* ... and the panic was then recovered on behalf of a different activation *)
+  s_gh    : ghost             (* no influence on the run: delimits two recorded findings about suspension *)
 }.
 
 Inductive soutcome :=
@@ -109,13 +117,25 @@ Record slocal := { l_rk : option pval; l_act : nat; l_dl : list dcall }.
 Inductive smode := MNormal | MPanic (v : pval) | MGoexit.
 
 Definition s_emit (e : event) (g : sglobal) : sglobal :=
-  {| s_trace := e :: s_trace g; s_cells := s_cells g; s_next := s_next g; s_infl := s_infl g; s_blk := s_blk g; s_flag := s_flag g |}.
+  {| s_trace := e :: s_trace g; s_cells := s_cells g; s_next := s_next g; s_gh := s_gh g |}.
 Definition s_setcell (i : nat) (v : Z * Z) (g : sglobal) : sglobal :=
-  {| s_trace := s_trace g; s_cells := cell_set (s_cells g) i v; s_next := s_next g; s_infl := s_infl g; s_blk := s_blk g; s_flag := s_flag g |}.
+  {| s_trace := s_trace g; s_cells := cell_set (s_cells g) i v; s_next := s_next g; s_gh := s_gh g |}.
 Definition s_fresh (g : sglobal) : nat * sglobal :=
-  (s_next g, {| s_trace := s_trace g; s_cells := s_cells g; s_next := S (s_next g); s_infl := s_infl g; s_blk := s_blk g; s_flag := s_flag g |}).
-Definition s_ghost (infl : list nat) (blk : option nat) (flag : bool) (g : sglobal) : sglobal :=
-  {| s_trace := s_trace g; s_cells := s_cells g; s_next := s_next g; s_infl := infl; s_blk := blk; s_flag := flag |}.
+  (s_next g, {| s_trace := s_trace g; s_cells := s_cells g; s_next := S (s_next g); s_gh := s_gh g |}).
+Definition s_setgh (h : ghost) (g : sglobal) : sglobal :=
+  {| s_trace := s_trace g; s_cells := s_cells g; s_next := s_next g; s_gh := h |}.
+Definition gh_set_infl (l : list nat) (h : ghost) := {| gh_infl := l; gh_blk := gh_blk h; gh_repl := gh_repl h; gh_a := gh_a h; gh_b := gh_b h |}.
+Definition gh_set_blk (b : option nat) (h : ghost) := {| gh_infl := gh_infl h; gh_blk := b; gh_repl := gh_repl h; gh_a := gh_a h; gh_b := gh_b h |}.
+Definition gh_on_block (h : ghost) : ghost :=
+  match gh_infl h with
+  | a :: _ => {| gh_infl := gh_infl h; gh_blk := Some a; gh_repl := gh_repl h; gh_a := gh_a h; gh_b := gh_b h || gh_repl h |}
+  | [] => h
+  end.
+Definition gh_on_recover (act : nat) (h : ghost) : ghost :=
+  let fl := match gh_blk h with Some a => negb (Nat.eqb a act) | None => false end in
+  {| gh_infl := gh_infl h; gh_blk := None; gh_repl := gh_repl h; gh_a := gh_a h || fl; gh_b := gh_b h |}.
+Definition gh_on_replace (h : ghost) : ghost :=
+  {| gh_infl := gh_infl h; gh_blk := None; gh_repl := true; gh_a := gh_a h; gh_b := gh_b h |}.
 
 Fixpoint spec_exec (fuel : nat) (p : program) (cell : nat) (ss : list stmt) (l : slocal) (g : sglobal)
   {struct fuel} : option (soutcome * slocal * sglobal) :=
@@ -160,7 +180,7 @@ Fixpoint spec_exec (fuel : nat) (p : program) (cell : nat) (ss : list stmt) (l :
     | SReturn => Some (OReturn, l, g)
     | SGoexit => Some (OGoexit, l, g)
     | SBlock =>
-        continue l (match s_infl g with a :: _ => s_ghost (s_infl g) (Some a) (s_flag g) g | [] => g end)
+        continue l (s_setgh (gh_on_block (s_gh g)) g)
     end
   end end
 
@@ -192,8 +212,8 @@ with spec_defers (fuel : nat) (p : program) (act : nat) (mode : smode) (gx : boo
   | d :: dl' =>
       let rk := match mode with MPanic v => Some v | _ => None end in
       let g := s_emit (ERun act (length dl')) g in
-      let infl0 := s_infl g in
-      let g := match mode with MPanic _ => s_ghost (act :: infl0) (s_blk g) (s_flag g) g | _ => g end in
+      let infl0 := gh_infl (s_gh g) in
+      let g := match mode with MPanic _ => s_setgh (gh_set_infl (act :: infl0) (s_gh g)) g | _ => g end in
       let res :=
         match d with
         | DClo b cell => spec_fun fuel' p cell b rk g
@@ -204,26 +224,25 @@ with spec_defers (fuel : nat) (p : program) (act : nat) (mode : smode) (gx : boo
       match res with
       | None => None
       | Some (MNormal, rk', g2) =>
-          let g2 := s_ghost infl0 (s_blk g2) (s_flag g2) g2 in
+          let g2 := s_setgh (gh_set_infl infl0 (s_gh g2)) g2 in
           match mode, rk' with
           | MPanic _, None => (* recovered *)
-              let fl := match s_blk g2 with Some a => negb (Nat.eqb a act) | None => false end in
-              let g2 := s_ghost infl0 None (s_flag g2 || fl) g2 in
+              let g2 := s_setgh (gh_on_recover act (s_gh g2)) g2 in
               spec_defers fuel' p act (if gx then MGoexit else MNormal) false dl' g2
           | _, _ => spec_defers fuel' p act mode gx dl' g2
           end
       | Some (MPanic v2, _, g2) =>
-          let g2 := s_ghost infl0 None (s_flag g2) g2 in
+          let g2 := s_setgh (gh_set_infl infl0 (match mode with MPanic _ => gh_on_replace (s_gh g2) | _ => gh_set_blk None (s_gh g2) end)) g2 in
           spec_defers fuel' p act (MPanic v2)
                       (match mode with MGoexit => true | _ => gx end) dl' g2
-      | Some (MGoexit, _, g2) => spec_defers fuel' p act MGoexit false dl' (s_ghost infl0 None (s_flag g2) g2)
+      | Some (MGoexit, _, g2) => spec_defers fuel' p act MGoexit false dl' (s_setgh (gh_set_infl infl0 (gh_set_blk None (s_gh g2))) g2)
       end
   end end.
 
 (* the goroutine wrapper:  go func() { defer func() { done <- true }(); x := f0(0); println("x", x, 0) }() *)
 Definition wrapper : list stmt := [SDeferClo []; SCall 0; STraceX].
 
-Definition s_init : sglobal := {| s_trace := []; s_cells := []; s_next := 1; s_infl := []; s_blk := None; s_flag := false |}.
+Definition s_init : sglobal := {| s_trace := []; s_cells := []; s_next := 1; s_gh := gh_init |}.
 
 Definition spec_run (fuel : nat) (p : program) : option (list event * final) :=
   match spec_fun fuel p 0 wrapper None s_init with
@@ -233,11 +252,11 @@ Definition spec_run (fuel : nat) (p : program) : option (list event * final) :=
             match mode with MPanic v => FFatal v | _ => FNormal end)
   end.
 
-(* did the run contain the situation that delimits blocked-deferred-panic-recovered-by-caller-continues? *)
-Definition spec_blockflag (fuel : nat) (p : program) : bool :=
+(* did the run contain the situations that delimit the two findings about suspension? *)
+Definition spec_blockflags (fuel : nat) (p : program) : bool * bool :=
   match spec_fun fuel p 0 wrapper None s_init with
-  | Some (_, _, g) => s_flag g
-  | None => false
+  | Some (_, _, g) => (gh_a (s_gh g), gh_b (s_gh g))
+  | None => (false, false)
   end.
 
 (* ============================================================ ImplPanic == *)
